@@ -224,6 +224,19 @@ def evaluate(ctx: Ctx, cases, oracle_only=False):
                 if any(repr(a) != repr(vns[0]) for a in vnalts):
                     ctx.oracle_fail('outside-sample-numba_mi', f'{short}: through numba_mi(heuristic={name!r}, ratio={c["r"]!r}) altering Y at unsampled rows '
                                     f'{c["alt"]} changes the score {vns[0]!r} -> {vnalts}', case)
+        # through conduct_feature_ranking (ratio carried by `args`), in a process that has served other ratios before
+        vcs = [x.get('vc') for x in results]
+        if any(a is None or not math.isfinite(a) for a in vcs) or len({repr(a) for a in vcs}) != 1:
+            ctx.oracle_fail('conduct-allocator-dependent', f'{short}: conduct_feature_ranking(heuristic={name!r}, ratio={c["r"]!r}) under MALLOC_PERTURB_ {PERTURB} = {vcs}', case)
+        else:
+            if c['alt'] is not None:
+                vcalts = [x.get('vcalt') for x in results]
+                if any(repr(a) != repr(vcs[0]) for a in vcalts):
+                    ctx.oracle_fail('outside-sample-conduct', f'{short}: through conduct_feature_ranking(args.heuristic={name!r}, args.mi_stratified_sampling_ratio={c["r"]!r}), '
+                                    f'called in a process that scored other cases with other ratios before, altering Y at unsampled rows {c["alt"]} changes the score '
+                                    f'{vcs[0]!r} -> {vcalts}', case)
+            if not abs(vcs[0] - v) <= 1e-7:
+                ctx.corr_fail('conduct', f'{short}: conduct_feature_ranking(heuristic={name!r}, ratio={c["r"]!r}) = {vcs[0]!r} but the estimator called directly gives {v!r}', case)
         ctx.sample({'family': c['family'], 'n': n, 'r': c['r'], 'cc': c['cc'], 'X': c['X'][:20], 'rows': rows[:20], 'value': v})
 
 
